@@ -14,7 +14,7 @@ pub fn prop() -> Prop {
     Prop {
         id: "C11",
         level: "exploration",
-        rule: "forward-model multi-track events with rounded noise and >= 20 (board, chip) PWB groups, plus malformed events (two bad PWB groups, duplicated wire banks incl. the [short, long] / [long, short] pattern, missing TRG, unknown bank). Every child shard is a fresh process (new HashMap RandomState keys) and computes, for the *same* events, a 64-bit digest over the raw bits of (timestamp, avalanche list in order, vertex) or the Ok/Err class: (a) identity order, reversal, every adjacent transposition (first 40) and 20 random shuffles in-process, (b) 8 concurrent threads, (c) the driver compares the identity digests of all children. A probe event with two differently broken PWB groups reports which group the error blames: the distinct answers seen show that HashMap iteration orders really differed. Non-trivial = distinct events with >= 2 PWB groups and >= 2 wire banks. Also: malformed events that must fail alike in every order: chunk / wire bank present twice with different valid content, bank named for another channel of the same board, repeated chunk id instead of a missing one; a half-failed build before the identity-order build in every second process (state must not leak). Round 4: a duplicate TRG bank with the most neutral content (timestamp 0, counters 0) first or last; a second PWB message that names the same chip inside but travels under another chip label (a group of its own), carrying all but the first channel. Round 5: a second PWB message for one chip without samples after the delay; an intermediate chunk carrying the end-of-message flag too; valid events with per-packet metadata and trigger-timestamp spreads 0..9 / 1000 / unrelated. Round 6: the channels of one (board, chip) split over two complete messages under the same label. Round 7: one chunk (not the first) of a PWB message in a bank named for another board; valid events under a real run number (calibration files with gaps). Round 8: TRG payload fields (firmware revision, counters, bitmaps) varied per event; a valid message from a board not installed for the run.",
+        rule: "forward-model multi-track events with rounded noise and >= 20 (board, chip) PWB groups, plus malformed events (two bad PWB groups, duplicated wire banks incl. the [short, long] / [long, short] pattern, missing TRG, unknown bank). Every child shard is a fresh process (new HashMap RandomState keys) and computes, for the *same* events, a 64-bit digest over the raw bits of (timestamp, avalanche list in order, vertex) or the Ok/Err class: (a) identity order, reversal, every adjacent transposition (first 40) and 20 random shuffles in-process, (b) 8 concurrent threads, (c) the driver compares the identity digests of all children. A probe event with two differently broken PWB groups reports which group the error blames: the distinct answers seen show that HashMap iteration orders really differed. Non-trivial = distinct events with >= 2 PWB groups and >= 2 wire banks. Also: malformed events that must fail alike in every order: chunk / wire bank present twice with different valid content, bank named for another channel of the same board, repeated chunk id instead of a missing one; a half-failed build before the identity-order build in every second process (state must not leak). Round 4: a duplicate TRG bank with the most neutral content (timestamp 0, counters 0) first or last; a second PWB message that names the same chip inside but travels under another chip label (a group of its own), carrying all but the first channel. Round 5: a second PWB message for one chip without samples after the delay; an intermediate chunk carrying the end-of-message flag too; valid events with per-packet metadata and trigger-timestamp spreads 0..9 / 1000 / unrelated. Round 6: the channels of one (board, chip) split over two complete messages under the same label. Round 7: one chunk (not the first) of a PWB message in a bank named for another board; valid events under a real run number (calibration files with gaps). Round 8: TRG payload fields (firmware revision, counters, bitmaps) varied per event; a valid message from a board not installed for the run. Round 9: all 256 wire banks plus one malformed wire bank at the front / middle / end; valid events under real runs of two calibration periods, the earlier first on each thread.",
         assumptions: &["a fresh process draws new RandomState keys (evidence lists the distinct probe answers observed)", "Ok/Err class must agree across orders; the error variant / payload may legitimately name the first offending bank"],
         profiles: release_only,
         shards: |t| t.pick(8, 32),
